@@ -36,8 +36,8 @@ CHECKS = {
             "Assumes writes reach the device in issue order and a torn write leaves a byte prefix.",
             SIM + "crash-point enumeration over the device write log (prefixes x torn cuts) plus drop/transformer/device-error points, reader as judge", "DESIGN.md §5 C15"),
     "C16": (True, "fault_enumeration",
-            "Per sampled program the single-fault space is enumerated completely: for every operation of the fault-free device/pipe operation sequence of the writer program or of the read-everything reader session, and every flavour applicable to its kind (hard error of kind Other and of six other kinds, short-then-error, EINTR, write returning 0, disk full), the session is re-run with exactly that fault - writer sessions three times: with a caller that stops at the failed call, one that gives up the item and goes on to the top-level finalize, and one that calls a failed finalize a second time; the API call in progress must return Err (EINTR may be absorbed with identical result, Drop swallows), finalize Ok implies the fault-free image, flushed (for callers that went on after a failure: a file that opens and returns everything the successful calls handed in); reader operations that met no failing device operation equal the fault-free session; some reader sessions cover payloads of 64 KiB or more; iterators are polled again after their first error. Plus chunking mode: K transfer schedules must give byte-identical images and identical read results.",
-            "What a writer offers after a failed call is judged only through the top-level finalize; EINTR only on transfers; errors in Drop are swallowed by design.",
+            "Per sampled program the single-fault space is enumerated completely: for every operation of the fault-free device/pipe operation sequence of the writer program or of the read-everything reader session, and every flavour applicable to its kind (hard error of kind Other and of six other kinds, short-then-error, EINTR - on seeks and flushes too -, write returning 0, disk full), the session is re-run with exactly that fault - writer sessions three times: with a caller that stops at the failed call, one that gives up the item and goes on to the top-level finalize, and one that calls a failed finalize a second time; the API call in progress must return Err (EINTR may be absorbed with identical result, Drop swallows), finalize Ok implies the fault-free image, flushed (for callers that went on after a failure: a file that opens and returns everything the successful calls handed in); reader operations that met no failing device operation equal the fault-free session; some reader sessions cover payloads of 64 KiB or more; iterators are polled again after their first error. Plus chunking mode: K transfer schedules must give byte-identical images and identical read results.",
+            "What a writer offers after a failed call is judged only through the top-level finalize; EINTR on every device operation kind (transfers, seeks, flushes); errors in Drop are swallowed by design.",
             SIM + "exhaustive single-fault injection over the recorded device-operation sequence, plus schedule-independence under seeded short transfers", "DESIGN.md §5 C16"),
     "C03": (True, "exploration",
             "Seeded scenes encoded by an independent, specification-driven producer (refcodec) under a seeded layout schedule (ragged per-stream packetisation with values straddling packets and empty streams, index/ignored packets before/between/after data packets, shuffled and padded sections, omitted optional type attributes, XML lexical variants); the producer's output must pass refcodec's own fsck and decode to the scene; the crate's reader on a simulated device with seeded short reads must return exactly the encoded values, counts and metadata. Run indices 0..19 read the bundled E57RefImpl / libE57Format / las2e57 files with the crate and with refcodec and compare. The producer also emits ignored packets up to 65536 bytes and index packets of higher levels over earlier index packets. Rare classes: prototypes of 255..703 attributes, runs of more than 1024 ignored packets between two data packets, and more than half a million points written attribute by attribute (one attribute far ahead of the others).",
